@@ -17,7 +17,7 @@ Inductive decomp :=
 | DP2Q (w : option (tensor Q)) (fs ps : list (tensor Q)).   (* rational entries (dyadic): the validator only (sub-orthonormal projections) *)
 
 Inductive view :=
-| VValidate | VTensor | VUnfolded (m : nat) | VVec | VNorm | VMatrix | VSlice (i : nat) | VSlices
+| VValidate | VTensor | VUnfolded (m : nat) | VUnfoldedNeg (k : nat) (* mode = -k *) | VVec | VNorm | VMatrix | VSlice (i : nat) | VSlices
 | VEin (v : view).   (* view v taken under the einsum tenalg backend, for the families whose einsum route is modelled separately (CP, Tucker, TT-matrix) *)
 
 Inductive out :=
@@ -43,6 +43,8 @@ Definition run (d : decomp) (v : view) : out :=
   | DCp w fs mask, VTensor => rt (cp_to_tensor Zops w fs mask)
   | DCp w fs _, VUnfolded m => rt (cp_to_unfolded Zops w fs m)
   | DCp w fs _, VVec => rt (cp_to_vec Zops w fs)
+  | DCp w fs _, VUnfoldedNeg k => rt (cp_to_unfolded_neg Zops w fs k)
+  | DCp w fs _, VEin (VUnfoldedNeg k) => rt (cp_to_unfolded_from_neg_einsum Zops (validate_cp w fs) w fs k)
   | DCp w fs _, VNorm => match cp_normsq Zops w fs with Ok n => ONorm (inject_Z n) | Err => OErr end
   | DTucker c fs _ _, VValidate => rsr (validate_tucker c fs)
   | DTucker c fs skip tr, VTensor => rt (tucker_to_tensor Zops c fs skip tr)
@@ -140,6 +142,8 @@ Definition obj_view (d : decomp) (x : obj) (v : view) : out :=
   | OCp o, VTensor => rt (cpo_to_tensor Zops o (match d with DCp _ _ m => m | _ => None end))
   | OCp o, VUnfolded m => rt (cpo_to_unfolded Zops o m)
   | OCp o, VVec => rt (cpo_to_vec Zops o)
+  | OCp o, VUnfoldedNeg k => rt (cp_to_unfolded_from_neg Zops (cpo_validate o) (cpo_weights o) (cpo_factors o) k)
+  | OCp o, VEin (VUnfoldedNeg k) => rt (cp_to_unfolded_from_neg_einsum Zops (cpo_validate o) (cpo_weights o) (cpo_factors o) k)
   | OCp o, VNorm => match cpo_normsq Zops o with Ok n => ONorm (inject_Z n) | Err => OErr end
   | OCp o, VEin VValidate => OSR (cpo_shape o) [cpo_rank o]
   | OCp o, VEin VTensor => rt (cp_to_tensor_from_einsum Zops (cpo_validate o) (cpo_weights o) (cpo_factors o) (match d with DCp _ _ m => m | _ => None end))
